@@ -91,6 +91,31 @@ def run(ctx):
         ctx.nt(('doc', name))
     # ---- prefixes inside attribute values -------------------------------------------------
     value_prefixes(ctx)
+    unqualified_stay(ctx)
+
+def unqualified_stay(ctx):
+    """an attribute without a prefix is in no namespace, on an ODF element, on a MathML element, on a foreign element alike - before
+    and after load and save"""
+    from odf.opendocument import load
+    MATH = 'http://www.w3.org/1998/Math/MathML'
+    body = ('<text:p plain="u" other="v">c</text:p><text:p><draw:frame><draw:object><math:math display="block"><math:mi mathvariant="bold">x</math:mi></math:math>'
+            '</draw:object></draw:frame></text:p><text:p><ext:box kind="k" ext:q="w">y</ext:box></text:p>')
+    want = {('p', 'plain'): 'u', ('p', 'other'): 'v', ('math', 'display'): 'block', ('mi', 'mathvariant'): 'bold', ('box', 'kind'): 'k'}
+    doc = load(io.BytesIO(P.simple_package(body, extra_ns={'math': MATH, 'ext': 'urn:verif:ext'})))
+    for label, data in (('contentxml()', doc.contentxml()), ('xml()', doc.xml())):
+        t = X.expat_parse(data); ctx.oracle_cases += 1
+        if t[0] != 'ok':
+            ctx.violation('not-well-formed', label, t[1], 'well-formed', {'cause': 'illformed'}); continue
+        found = {}
+        def walk(n):
+            if n[0] != 'E': return
+            for a, v in n[2]:
+                if (n[1][1], a[1]) in want: found[(n[1][1], a[1])] = (a[0], v)
+            for k in n[3]: walk(k)
+        walk(t[1])
+        bad = {k: found.get(k) for k in want if found.get(k) != ('', want[k])}
+        if bad: ctx.violation('unqualified-attribute-moved', {'rendering': label, 'source': body}, {str(k): v for k, v in bad.items()}, 'each in no namespace, value kept', {})
+        ctx.nt(('unqualified', label))
 
 def check_decls(ctx, name, decls):
     decls = [tuple(x) for x in decls]
